@@ -279,3 +279,18 @@ Section RoundKeys.
   Definition rk_run (cap : nat) (s : rk_cache * list rk_thread) (sched : list nat) :=
     fold_left (rk_sys_step cap) sched s.
 End RoundKeys.
+
+(* ------------------------------------------------------------------ Part 3: sequential histories *)
+
+(* one extraction after the other: each runs the whole protocol alone (13 statements suffice for
+   either protocol), starting from the G the previous one left behind *)
+Fixpoint seq_history (prog : list instr) (k : nat) (g0 : fn) : fn :=
+  match k with
+  | O => g0
+  | S k' => G (run (init_from (seq_history prog k' g0) 1 prog) (repeat 0%nat 13))
+  end.
+
+(* the one-way AES patch of pypdf's fallback provider (patch_pypdf_fallback_aes): a flag that an
+   extraction of an AES-encrypted PDF sets and nothing ever clears *)
+Definition aes_step (patched : bool) (doc_needs_aes : bool) : bool := patched || doc_needs_aes.
+Definition aes_history (patched : bool) (docs : list bool) : bool := fold_left aes_step docs patched.
